@@ -137,6 +137,21 @@ def shard(arg):
             rep.count("single_n", n)
             for key, msg, extra in check_single(case):
                 rep.fail(key, case, msg, **extra)
+    elif kind == "named":
+        # named textbook states (product states, GHZ, cluster states ... in uniform frames), each in several random generator bases
+        _, n, k, seed = arg
+        from gen import named
+        for label, gid, w, gens, circ in named.named_subjects(n):
+            for j in range(k):
+                rng = fw.rng_for("c15n", seed, n, label, j)
+                g2 = members.random_basis_change(gens, rng, steps=(0 if j == 0 else 3 * n))
+                g2 = members.apply_signs(g2, rng.randrange(1 << n))
+                case = {"kind": "single", "n": n, "strings": sweep.strings(g2, n), "fmt": rng.choice(fmts)}
+                nt, tabs = classify(case)
+                rep.case(nt, dict(case, state=label) if (j == 1 and label.startswith("empty+h")) else None)
+                rep.count("single_n", f"{n}(named)")
+                for key, msg, extra in check_single(case):
+                    rep.fail(key, case, msg + f" [named state {label}]", **extra)
     elif kind == "members":
         _, n, orbits, k, seed = arg
         for gens, rng, meta in sweep.member_subjects(n, orbits, k, seed, "c15m"):
@@ -198,6 +213,8 @@ def run(ctx):
     for n in (5, 6):
         for chunk in fw.split(members.orbit_reps(n), 2 if n == 5 else 16):
             args.append(("members", n, chunk, 4 if q else 100, ctx.seed))
+    for n in range(2, 7):
+        args.append(("named", n, 5 if q else 40, ctx.seed))
     for i in range(16):
         args.append(("hyp", ctx.seed * 1000 + i, 80 if q else 30000, ctx.deadline))
     rep = fw.run_shards(ctx, "props.c15", "shard", args)
